@@ -428,7 +428,41 @@ def Sum(ivar: str, space, body: Expr) -> Expr:
             return mul(_mkmul(outer), Sum(ivar, space, _mkmul(inner)))
     if body[0] == "div" and ivar not in free_ivars(body[2]):
         return div(Sum(ivar, space, body[1]), body[2])
+    flat = _flatten_blocks(ivar, space_key(space), body)
+    if flat is not None:
+        return flat
     return _mk("sum", ivar, space_key(space), body)
+
+
+def _flatten_blocks(k: str, okey, body: Expr):
+    """Σ_{k over the blocks 0, s, 2s, … of a space P} Σ_{i in P[k·s : min(k·s + s, |P|)]} g(i)  =  Σ_{i in P} g(i):
+    consecutive blocks of width s partition the positions of P, the last one cut at the end (chunked processing).  Only when
+    g does not mention the block variable itself."""
+    if not (isinstance(okey, tuple) and len(okey) == 4 and okey[0] == "strided" and body[0] == "sum"):
+        return None
+    lo0, hi0, st = okey[1], okey[2], okey[3]
+    i, ikey, g = body[1], body[2], body[3]
+    if not (isinstance(ikey, tuple) and len(ikey) == 4 and ikey[0] == "slice"):
+        return None
+    parent, a, b = ikey[1], ikey[2], ikey[3]
+    if lo0 != ZERO or hi0 != Size(parent) or k in free_ivars(g):
+        return None
+    start = mul(IV(k), st)
+    if a != start:
+        return None
+    want = fn("min", add(start, st), Size(parent))
+    if b != want:
+        return None
+    return Sum(i, Space_of_key(parent), g)
+
+
+def Space_of_key(key):
+    """a stand-in with the attributes Sum/Red read from a space (its key)"""
+    class _K:
+        pass
+    o = _K()
+    o.key = key
+    return o
 
 
 def Red(op: str, ivar: str, space, body: Expr) -> Expr:
@@ -581,6 +615,32 @@ def walk(e: Expr):
         stack.extend(children(x))
 
 
+def key_exprs(key) -> list:
+    """the expressions a space key is built from when they are bounds computed by the program (a slice of a space between
+    computed positions, a strided or computed range) — these may mention index variables of enclosing loops.  The condition
+    of a mask-selected sub-space is not listed: its variable is the row position, bound by the space itself."""
+    if isinstance(key, tuple) and key and key[0] in ("slice", "strided", "range"):
+        out = []
+        for x in key[1:]:
+            if isinstance(x, Expr):
+                out.append(x)
+            elif isinstance(x, tuple):
+                out.extend(key_exprs(x))
+        return out
+    if isinstance(key, tuple) and len(key) == 3 and key[0] == "sub":
+        return key_exprs(key[1])
+    return []
+
+
+def map_key(key, f):
+    """the space key with f applied to the bound expressions listed by key_exprs"""
+    if isinstance(key, tuple) and key and key[0] in ("slice", "strided", "range"):
+        return tuple([key[0]] + [f(x) if isinstance(x, Expr) else (map_key(x, f) if isinstance(x, tuple) else x) for x in key[1:]])
+    if isinstance(key, tuple) and len(key) == 3 and key[0] == "sub":
+        return ("sub", map_key(key[1], f), key[2])
+    return key
+
+
 def free_ivars(e: Expr) -> set:
     t = e[0]
     if t == "in":
@@ -588,9 +648,20 @@ def free_ivars(e: Expr) -> set:
     if t == "iv":
         return {e[1]}
     if t == "sum":
-        return free_ivars(e[3]) - {e[1]}
+        out = free_ivars(e[3]) - {e[1]}
+        for k in key_exprs(e[2]):
+            out |= free_ivars(k)
+        return out
     if t == "red":
-        return free_ivars(e[4]) - {e[2]}
+        out = free_ivars(e[4]) - {e[2]}
+        for k in key_exprs(e[3]):
+            out |= free_ivars(k)
+        return out
+    if t == "size":
+        out = set()
+        for k in key_exprs(e[1]):
+            out |= free_ivars(k)
+        return out
     if t == "sel":
         s = {e[1]}
         for a in e[2]:
@@ -697,13 +768,15 @@ def subst_ivar(e: Expr, ivar: str, to) -> Expr:
             return Sel(x[1], tuple(rec(a) for a in x[2]))
         if t == "sum":
             if x[1] == ivar:
-                return x
-            return Sum(x[1], x[2], rec(x[3]))
+                return Sum(x[1], map_key(x[2], rec), x[3]) if key_exprs(x[2]) else x
+            return Sum(x[1], map_key(x[2], rec), rec(x[3]))
         if t == "red":
             if x[2] == ivar:
-                return x
-            return Red(x[1], x[2], x[3], rec(x[4]))
-        if t in ("num", "sym", "size", "str", "bool"):
+                return Red(x[1], x[2], map_key(x[3], rec), x[4]) if key_exprs(x[3]) else x
+            return Red(x[1], x[2], map_key(x[3], rec), rec(x[4]))
+        if t == "size":
+            return Size(map_key(x[1], rec)) if key_exprs(x[1]) else x
+        if t in ("num", "sym", "str", "bool"):
             return x
         if t == "lin":
             out = Num(x[2])
